@@ -56,6 +56,9 @@ func faultFidelityPass(tier string, seed uint64, cov map[string]any) (int, []str
 		return 2, []string{"INFRA: " + err.Error()}
 	}
 	defer os.RemoveAll(root)
+	if bin, err = stageBinary(bin, root); err != nil {
+		return 2, []string{"INFRA: " + err.Error()}
+	}
 	old := syscall.Umask(0o022)
 	defer syscall.Umask(old)
 
@@ -80,8 +83,12 @@ func faultFidelityPass(tier string, seed uint64, cov map[string]any) (int, []str
 		if err := materialise(w0, dir); err != nil {
 			return nil, err
 		}
+		handOver(dir)
 		logf := filepath.Join(root, fmt.Sprintf("d%d.log", dirNo))
 		cmdArgs := append([]string{"-d", dir, "-l", logf}, ptArgs...)
+		if dropPrivileges() {
+			cmdArgs = append(cmdArgs, "-u", strconv.Itoa(unprivUID))
+		}
 		cmdArgs = append(cmdArgs, "--", bin)
 		cmdArgs = append(cmdArgs, args...)
 		cmd := exec.Command(pt, cmdArgs...)
@@ -227,10 +234,11 @@ func faultFidelityPass(tier string, seed uint64, cov map[string]any) (int, []str
 			planRuns++
 		}
 		// 3. a real SIGINT: invariants on the real directory
-		// (not for runs that write to standard output: the handler of the pinned
-		// gxz removes os.Stdout.Name() = "/dev/stdout" - as root that deletes the
-		// host's /dev/stdout, which is how this was noticed; see DESIGN.md §6)
-		for k := 0; k < sigPerCase && len(kinds) > 0 && !j.v.Stdout; k++ {
+		// (The handler of the pinned gxz removes os.Stdout.Name() = "/dev/stdout"
+		// when the output is standard output; run as root that deletes the host's
+		// /dev/stdout - which is how it was noticed, DESIGN.md §6. Real runs are
+		// therefore done under an unprivileged uid.)
+		for k := 0; k < sigPerCase && len(kinds) > 0; k++ {
 			at := pr.Range(1, len(kinds))
 			srr, err := realRun(w0, args, "-s", strconv.Itoa(at))
 			if err != nil {
